@@ -201,7 +201,7 @@ def run_C15(ctx, rep):
         rep.viol('W', 'corpus family ' + m, 'well-formed-rejected',
                  'well-formed programs of the corpus no longer compile: ' + (ctx.meta.get('corpus_first_error', {}).get(m) or 'see stderr'))
     n = witness_rules.run_witnesses(ctx, rep, ctx.tier)
-    rep.floor('W', 175 if ctx.tier == 'quick' else 840, 'compile witnesses')
+    rep.floor('W', 180 if ctx.tier == 'quick' else 850, 'compile witnesses')
     return {'cov': {'exhaustive': True, 'witness_tier': ctx.tier}}
 
 
